@@ -335,6 +335,10 @@ def mech_for(kind, iface, cfgname, spec, flags, exc=None, probe=None):
     msg = str(exc) if exc is not None else ""
     ename = type(exc).__name__ if exc is not None else ""
     try:
+        if base.startswith(ADJOINT_FAMILY) and kind == "wrong" and any(m["kind"] != "expval" for m in spec["meas"]):
+            # adjoint differentiation of a non-expectation measurement goes through the state Jacobian (adjoint_state_measurements casts every
+            # parameter to complex and post-processes the differentiated state); its derivatives are wrong whenever that path does not raise
+            return "adjoint:state-based-measurement:wrong-derivative"
         if base.startswith(ADJOINT_FAMILY):
             # structural fallback when the probe cannot run (e.g. broadcast case): a gate with >= 2 controls is decomposed by the
             # adjoint preprocessing into MultiControlledX (data holds the control values, num_params is 0)
@@ -385,8 +389,32 @@ def crash_mech(e, iface):
     return f"crash:{iface.split('-')[0]}:{type(e).__name__}@{where}"
 
 
+TRANSFORM_CFG_PREFIXES = ("ps", "had", "fd", "spsa", "param_shift", "hadamard_grad", "finite_diff", "best-ps")
+
+
+def documented_unsupported(spec, cfgname):
+    """Configurations the documentation excludes for an already-broadcast circuit (they are not 'admitted inputs'):
+    * param_shift(broadcast=True): "it is not compatible with circuits that are already broadcasted" (parameter_shift.py, warning box);
+      only the case of differing batch sizes is refused explicitly, equal sizes run into shape errors or mixed-up axes;
+    * gradient transforms on a broadcast tape with several measurements: "Parameter broadcasting doesn't yet support multiple
+      measurements, hence such cases are not dealt with" (gradients/gradient_transform.py, axis-ordering note [2])."""
+    if not spec.get("batch"):
+        return None
+    base = cfgname.split("@")[0]
+    if "-bc" in base:
+        return "documented: broadcast=True is not compatible with an already broadcast circuit"
+    if len(spec["meas"]) > 1 and base.startswith(TRANSFORM_CFG_PREFIXES):
+        return "documented: gradient transforms do not handle broadcasting with several measurements"
+    return None
+
+
 def run_config(ctx, judge, monitor, iface, cfgname, fn, Jref, bound, extra=None):
     """fn() -> Jacobian matrix; exceptions are classified into documented rejections and crashes."""
+    why = documented_unsupported(judge.spec, cfgname)
+    if why is not None:
+        ctx.reject(f"{cfgname.split('@')[0]}: {why}")
+        ctx.count("rejected_configs")
+        return None
     try:
         J = fn()
     except Exception as e:  # noqa: BLE001
